@@ -272,14 +272,14 @@ Section Loop.
         with (tl (skipn ai adds)) by (subst ai; destruct sw; symmetry; apply skipn_S_tl).
       destruct (jj_secs st (tl (skipn ai adds)) rs sw) as [[o sw'] r'].
       cbn [fst snd]. unfold print_secs. cbn [map concat].
-      rewrite write_base_sec, write_side_sec, <- app_assoc. reflexivity.
+      rewrite write_base_sec, write_side_sec. reflexivity.
     - destruct (negb sw && Nat.ltb _ _) eqn:Ec.
       + apply andb_prop in Ec. destruct Ec as [Esw _]. destruct sw; [discriminate|].
         rewrite (IH (Datatypes.S bi) true). subst ai.
         rewrite !skipn_S_tl.
         destruct (jj_secs st (tl (tl (skipn bi adds))) rs true) as [[o sw'] r'].
         cbn [fst snd]. unfold print_secs. cbn [map concat].
-        rewrite write_side_sec, write_diff_sec, <- app_assoc. reflexivity.
+        rewrite write_side_sec, write_diff_sec. reflexivity.
       + rewrite (IH (Datatypes.S bi) sw).
         replace (skipn (if sw then Datatypes.S (Datatypes.S bi) else Datatypes.S bi) adds)
           with (tl (skipn ai adds)) by (subst ai; destruct sw; symmetry; apply skipn_S_tl).
@@ -288,7 +288,7 @@ Section Loop.
         rewrite write_diff_sec. reflexivity.
   Qed.
 
-  Lemma jj_secs_spec st : forall removes rest sw,
+  Lemma jj_secs_spec st : forall (removes rest : list term) (sw : bool),
     Forall term_ok rest -> Forall term_ok removes ->
     length rest = (length removes + (if sw then 0 else 1))%nat ->
     let '(secs, sw', r') := jj_secs st rest removes sw in
@@ -306,7 +306,7 @@ Section Loop.
       + specialize (IH rest1 sw Hrest1 Hrs). cbn [length] in Hlen.
         destruct (jj_secs st rest1 rs sw) as [[o sw'] r'].
         destruct IH as [I1 [I2 [[cons [I3 I4]] [I5 I6]]]]; [lia|].
-        repeat split; auto.
+        split; [|split; [|split; [|split; [exact I5|exact I6]]]].
         * constructor; [apply srem_ok; exact Hlft|]. constructor; [apply sadd_ok; exact Hr1|exact I1].
         * cbn [flat_map srem sadd sec_rems app map]. rewrite I2. reflexivity.
         * exists (right1 :: cons). split; [rewrite I3; reflexivity|].
@@ -320,17 +320,16 @@ Section Loop.
           destruct (jj_secs st rest2 rs true) as [[o sw'] r'].
           destruct IH as [I1 [I2 [[cons [I3 I4]] [I5 I6]]]]; [lia|].
           destruct (sdiff_spec lft right2 Hlft Hr2) as [S1 [S2 S3]].
-          repeat split; auto.
+          split; [|split; [|split; [|split; [exact I5|discriminate]]]].
           -- constructor; [apply sadd_ok; exact Hr1|]. constructor; [exact S1|exact I1].
           -- cbn [flat_map sadd sec_rems app]. rewrite S2, I2. reflexivity.
           -- exists (right1 :: right2 :: cons). split; [rewrite I3; reflexivity|].
              cbn [flat_map sadd sec_adds app]. rewrite S3, I4. reflexivity.
-          -- discriminate.
         * specialize (IH rest1 sw Hrest1 Hrs). cbn [length] in Hlen.
           destruct (jj_secs st rest1 rs sw) as [[o sw'] r'].
           destruct IH as [I1 [I2 [[cons [I3 I4]] [I5 I6]]]]; [lia|].
           destruct (sdiff_spec lft right1 Hlft Hr1) as [S1 [S2 S3]].
-          repeat split; auto.
+          split; [|split; [|split; [|split; [exact I5|exact I6]]]].
           -- constructor; [exact S1|exact I1].
           -- cbn [flat_map app]. rewrite S2, I2. reflexivity.
           -- exists (right1 :: cons). split; [rewrite I3; reflexivity|].
@@ -366,27 +365,27 @@ Section Loop.
     pose proof (jj_secs_spec st removes _ fs Hrest_ok Hrems Hrest_len) as Hspec.
     destruct (jj_secs st (if fs then tl adds else adds) removes fs) as [[secs sw'] r'].
     destruct Hspec as [I1 [I2 [[cons [I3 I4]] [I5 I6]]]]. cbn [fst snd].
-    destruct adds as [|a0 adds']; [cbn in Hlen; lia|]. cbn [nth].
+    destruct adds as [|a0 adds']; [cbn in Hlen; lia|].
     destruct fs.
     - (* first side printed as a snapshot *)
-      rewrite (I6 eq_refl) in *. destruct r'; [|cbn in I5; lia]. rewrite app_nil_r in I3.
+      cbn [nth]. rewrite (I6 eq_refl) in *. destruct r'; [|cbn in I5; lia]. rewrite app_nil_r in I3.
       cbn [tl] in I3. subst cons.
       exists (sadd a0 :: secs). split; [|split; [|split]].
       + rewrite write_side_sec. unfold print_secs, mline. cbn [map concat].
-        rewrite !app_nil_r, <- !app_assoc. reflexivity.
+        rewrite <- !app_assoc. reflexivity.
       + constructor; [apply sadd_ok; inversion Hadds; assumption|exact I1].
       + cbn [flat_map sadd sec_adds app map fst]. rewrite I4. reflexivity.
       + cbn [flat_map sadd sec_rems app]. exact I2.
     - destruct sw'.
       + destruct r'; [|cbn in I5; lia]. rewrite app_nil_r in I3. subst cons.
         exists secs. split; [|split; [|split]]; auto.
-        unfold mline. rewrite !app_nil_r, <- !app_assoc. reflexivity.
+        unfold mline. rewrite <- !app_assoc. reflexivity.
       + destruct r' as [|t [|? ?]]; cbn in I5; try lia.
         assert (Hnth : nth (length (a0 :: adds') - 1) (a0 :: adds') dterm = t).
         { rewrite I3, app_length. cbn [length].
           replace (length cons + 1 - 1)%nat with (length cons) by lia.
           rewrite app_nth2 by lia. rewrite Nat.sub_diag. reflexivity. }
-        cbn [length] in Hnth. cbn [length]. rewrite Hnth.
+        rewrite Hnth.
         exists (secs ++ [sadd t]). split; [|split; [|split]].
         * rewrite write_side_sec. unfold print_secs, mline.
           rewrite map_app, concat_app. cbn [map concat].
